@@ -477,6 +477,58 @@ def run(check, repo: Repo) -> None:
                      fail_detail=f"`{unparse(d[0])}` (extent {n_}, expected {ext}): {why} — the allowed disc is not centred on zero shift / uses the other axis' extent")
     # no cross-call state: a memoised helper must key its cache on every parameter the cached value depends on
     _rule_memo(check, repo, mod)
+    # the estimators do not write into their arguments (with fft_input=True the arrays ARE the caller's spectra) and do not couple the dtype of the
+    # returned shift to the image dtype
+    for label, fn_ in (("cross_correlation_shift", ccs), ("dft_upsample", dnp), ("cross_correlation_shift_torch", cct), ("align_images_fourier_torch", ali), ("upsampled_correlation_torch", ups),
+                       ("dftUpsample_torch", dto)):
+        params_ = set(func_params(fn_))
+        arrayish = {p_ for p_ in params_ if any(isinstance(x, ast.Attribute) and x.attr in ("shape", "real", "imag", "T", "dtype", "device") and isinstance(x.value, ast.Name) and x.value.id == p_
+                                                 for x in ast.walk(fn_))
+                    or any(isinstance(c, ast.Call) and any(isinstance(a_, ast.Name) and a_.id == p_ for a_ in c.args) and ("fft" in (call_name(c) or "") or (call_name(c) or "").endswith(("conj", "asarray")))
+                           for c in ast.walk(fn_))}
+        alias = set(arrayish)
+        changed = True
+        while changed:  # locals that may be the very same array as an array argument
+            changed = False
+            for st_ in walk_no_nested_defs(fn_):
+                if isinstance(st_, ast.Assign) and isinstance(st_.targets[0], ast.Name) and st_.targets[0].id not in alias:
+                    v_ = st_.value
+                    cands = [v_.body, v_.orelse] if isinstance(v_, ast.IfExp) else [v_]
+                    for cnd in cands:
+                        while isinstance(cnd, ast.Call) and (call_name(cnd) or "").split(".")[-1] in ("asarray", "asanyarray", "as_tensor") and cnd.args:
+                            cnd = cnd.args[0]
+                        if isinstance(cnd, ast.Name) and cnd.id in alias:
+                            alias.add(st_.targets[0].id)
+                            changed = True
+        writes_ = []
+        for st_ in walk_no_nested_defs(fn_):
+            if isinstance(st_, ast.AugAssign) and isinstance(st_.target, ast.Name) and st_.target.id in alias:
+                writes_.append(st_)
+            tg_ = st_.targets[0] if isinstance(st_, ast.Assign) else (st_.target if isinstance(st_, ast.AugAssign) else None)
+            if isinstance(tg_, ast.Subscript) and isinstance(tg_.value, ast.Name) and tg_.value.id in alias:
+                writes_.append(st_)
+            for c in ast.walk(st_):
+                if isinstance(c, ast.Call) and kwarg(c, "out") is not None and isinstance(kwarg(c, "out"), ast.Name) and kwarg(c, "out").id in alias:
+                    writes_.append(st_)
+                if isinstance(c, ast.Call) and isinstance(c.func, ast.Attribute) and isinstance(c.func.value, ast.Name) and c.func.value.id in alias \
+                        and c.func.attr.endswith("_") and not c.func.attr.startswith("_") and isinstance(st_, ast.Expr):
+                    writes_.append(st_)
+        check.decide(not writes_, "C13-R5", f"{label}: the input arrays are not modified in place", f"array arguments/aliases {sorted(alias)}", mod.line(writes_[0]) if writes_ else mod.line(fn_),
+                     fail_detail=f"`{unparse(writes_[0])[:60]}` writes into an array that may be the caller's argument (with fft_input=True the spectrum is passed straight through): registering the same "
+                                 f"frame again returns the applied shift minus the earlier one" if writes_ else "")
+    for label, fn_ in (("cross_correlation_shift_torch", cct), ("align_images_fourier_torch", ali)):
+        imgs_ = set(func_params(fn_)[:2])
+        coupled = []
+        for r_ in [n for n in walk_no_nested_defs(fn_) if isinstance(n, ast.Return) and n.value is not None]:
+            for c in ast.walk(r_.value):
+                if isinstance(c, ast.Call) and isinstance(c.func, ast.Attribute) and c.func.attr in ("to", "type_as") and any(isinstance(a_, ast.Name) and a_.id in imgs_ for a_ in c.args):
+                    coupled.append(unparse(c)[:60])
+                if isinstance(c, ast.Call):
+                    dk = kwarg(c, "dtype")
+                    if dk is not None and names_in(dk) & imgs_:
+                        coupled.append(unparse(c)[:60])
+        check.decide(not coupled, "C13-R5", f"{label}: the returned shift does not take its dtype from the images", "", mod.line(fn_),
+                     fail_detail=f"{coupled}: integer-count images truncate the sub-pixel shift toward zero ((2.3, −4.7) comes back as (2, −4))")
 
     # ---- R3 sibling agreement: parabolic refinement -----------------------------------------------------------
     canon = (Rat.sym("v2") - Rat.sym("v0")) / (Rat.const(4) * Rat.sym("v1") - Rat.const(2) * Rat.sym("v2") - Rat.const(2) * Rat.sym("v0"))
@@ -520,10 +572,36 @@ def run(check, repo: Repo) -> None:
                  "cross_correlation_shift: sub-sample refinement uses the centre column for rows and the centre row for columns", str(sub), mod.line(ccs),
                  fail_detail=f"{sub}")
     check.floor("parabolic refinements compared", n_par, 5)
-    vs = {k: [unparse(d) for d in definitions(ccs, k) if isinstance(d, ast.AST)] for k in ("vx", "vy")}
-    check.decide(vs == {"vx": ["cc_real[x_inds, y0]"], "vy": ["cc_real[x0, y_inds]"]}, "C13-R3",
-                 "cross_correlation_shift: neighbours are read along rows for the row refinement and along columns for the column refinement", str(vs), mod.line(ccs),
-                 fail_detail=str(vs))
+    # the three samples of each coarse refinement are the peak's PERIODIC neighbours (the correlation is circular: a peak on row/column 0 or n−1 — the
+    # zero-shift case — has its neighbour on the other side)
+    prof = [c.args[0] for c in calls_in(ccs) if call_name(c) == "parabolic_peak" and c.args and isinstance(c.args[0], ast.Name)]
+    n_prof = 0
+    for pv in prof:
+        dd = [d for d in definitions(ccs, pv.id) if isinstance(d, ast.AST)]
+        if len(dd) != 1:
+            continue
+        d0 = dd[0]
+        wraps_ok, why_ = None, unparse(d0)[:70]
+        if isinstance(d0, ast.Call) and (call_name(d0) or "").split(".")[-1] == "take":
+            md = kwarg(d0, "mode")
+            wraps_ok = md is not None and is_const(md, "wrap")
+            why_ = f"take(mode={unparse(md) if md is not None else 'raise (default)'})"
+        elif isinstance(d0, ast.Subscript) and isinstance(d0.slice, ast.Tuple):
+            vecs = [e for e in d0.slice.elts if isinstance(e, ast.Name) and any(isinstance(x, ast.AST) and any(isinstance(y, ast.Call) and (call_name(y) or "").endswith("arange") for y in ast.walk(x))
+                                                                                  for x in definitions(ccs, e.id))]
+            if len(vecs) == 1:
+                idef = [x for x in definitions(ccs, vecs[0].id) if isinstance(x, ast.AST)][0]
+                wraps_ok = any((isinstance(y, ast.Call) and (call_name(y) or "").split(".")[-1] in ("mod", "remainder")) or (isinstance(y, ast.BinOp) and isinstance(y.op, ast.Mod)) for y in ast.walk(idef))
+                why_ = f"{vecs[0].id} = {unparse(idef)[:60]}"
+            elif not vecs:
+                continue  # a slice of the upsampled 3×3 patch (icc[:, 1]) — interior by construction
+        if wraps_ok is None:
+            continue
+        n_prof += 1
+        check.decide(wraps_ok, "C13-R3", f"cross_correlation_shift: the neighbours `{pv.id}` of the coarse peak are taken periodically (index mod extent)", why_, mod.line(d0),
+                     fail_detail=f"{why_}: neighbour indices are clipped / not wrapped at the border — for identical images (peak at 0, 0) the parabola sees the peak value twice and the shift is "
+                                 f"biased by ±0.5 px")
+    check.floor("coarse-peak neighbour profiles", n_prof, 2)
 
     # ---- R4 every returned aligned image passes the output-domain dispatch --------------------------------------------
     rets = [n for n in walk_no_nested_defs(ccs) if isinstance(n, ast.Return) and isinstance(n.value, ast.Tuple) and len(n.value.elts) == 2]
